@@ -443,6 +443,9 @@ def densify(coords: CoordList, resolution: float) -> CoordList:
     """
     Adds points so they are at most `resolution` units apart.
     """
+    if resolution <= 0:
+        raise ValueError("resolution must be positive")
+
     d2 = resolution**2
 
     def short_enough(p1, p2):
